@@ -97,6 +97,19 @@ theorem annotation_roundtrip (kvs : List (List Char × List Char)) (h : ValidTok
     rw [if_pos hmem, split_append_sep '=' kv.1 kv.2 hv.2.1, split_no_sep '=' kv.2 hv.2.2.2]
     simp only [ih hrest]
 
+/-- **two different annotations are never written as the same text**: the writer is injective on valid key/value lists
+(otherwise a reader could not tell the two reactions apart). -/
+theorem annotation_injective (kvs kvs' : List (List Char × List Char)) (h : ValidTokens kvs) (h' : ValidTokens kvs')
+    (he : encodeAnnotation kvs = encodeAnnotation kvs') : kvs = kvs' := by
+  have := congrArg decodeAnnotation he
+  rwa [annotation_roundtrip kvs h, annotation_roundtrip kvs' h'] at this
+
+/-- **writing again what was read gives the same text** (export ∘ import ∘ export = export at the annotation level): the
+second-generation file does not drift from the first. -/
+theorem annotation_reexport (kvs : List (List Char × List Char)) (h : ValidTokens kvs) :
+    encodeAnnotation (decodeAnnotation (encodeAnnotation kvs)) = encodeAnnotation kvs := by
+  rw [annotation_roundtrip kvs h]
+
 /-! ### Comma-separated lists inside an annotation value (delayed reactants / products) -/
 
 /-- **`v.split(',')` undoes `','.join(names)`** for a non-empty list of names without commas. -/
@@ -231,6 +244,13 @@ theorem stoich_roundtrip (idx R P : List String) :
   apply List.map_congr_left
   intro s _
   rw [C03.updateDict_entry, C03.updateDict_entry, stoich_roundtrip_count, stoich_roundtrip_count]
+
+/-- the stoichiometry read back, written and read again is still the original's (any number of generations is then an
+induction on this step). -/
+theorem stoich_roundtrip_twice (idx R P : List String) :
+    stoichColumn idx (expand (dedupCount (expand (dedupCount R)))) (expand (dedupCount (expand (dedupCount P))))
+      = stoichColumn idx R P := by
+  rw [stoich_roundtrip, stoich_roundtrip]
 
 /-! ### Non-vacuity -/
 example : decodeAnnotation (encodeAnnotation [("type".toList, "massaction".toList), ("k".toList, "k1".toList)])
